@@ -18,6 +18,7 @@ import (
 
 	"gitlab.com/gomidi/midi/v2"
 	"gitlab.com/gomidi/midi/v2/drivers/testdrv"
+	"gitlab.com/gomidi/midi/v2/internal/verifh/disturb"
 	"gitlab.com/gomidi/midi/v2/internal/verifh/engine"
 	"gitlab.com/gomidi/midi/v2/internal/verifh/faultio"
 	"gitlab.com/gomidi/midi/v2/internal/verifh/refsmf"
@@ -570,6 +571,7 @@ func writeFileFaults() {
 
 func main() {
 	ctx = engine.Start("C10", "fault_enumeration")
+	disturb.Install(ctx)
 	if ctx.ReplayPath != "" {
 		replay()
 		return
